@@ -24,6 +24,51 @@ Fixpoint remove_indices_from (i : nat) (idx : list nat) (l : list node) : list n
 Definition other {A} (r : res A) : res A :=          (* fmt.Errorf("...: %v", err): typed error is lost *)
   match r with Ok a => Ok a | Err _ => Err (EOther "wrapped") end.
 
+Definition flag_assertion (a : assertion) : assertion :=
+  {| a_version := a_version a; a_id := a_id a; a_issue_instant := a_issue_instant a;
+     a_issuer := a_issuer a; a_signature := a_signature a; a_subject := a_subject a;
+     a_conditions := a_conditions a; a_attribute_statement := a_attribute_statement a;
+     a_authn_statement := a_authn_statement a; a_signature_validated := true |}.
+
+Definition with_flag (r : response) (flag : bool) (assertions : list assertion) (enc : nat) : response :=
+  {| r_id := r_id r; r_in_response_to := r_in_response_to r; r_destination := r_destination r;
+     r_version := r_version r; r_issue_instant := r_issue_instant r; r_status := r_status r;
+     r_issuer := r_issuer r; r_assertions := assertions; r_encrypted_count := enc;
+     r_signature_validated := flag |}.
+
+Definition lr_with_flag (r : logout_response) (flag : bool) : logout_response :=
+  {| lr_id := lr_id r; lr_in_response_to := lr_in_response_to r; lr_destination := lr_destination r;
+     lr_version := lr_version r; lr_issue_instant := lr_issue_instant r; lr_status := lr_status r;
+     lr_issuer := lr_issuer r; lr_signature_validated := flag |}.
+
+Definition lq_with_flag (r : logout_request) (flag : bool) : logout_request :=
+  {| lq_id := lq_id r; lq_version := lq_version r; lq_issue_instant := lq_issue_instant r;
+     lq_destination := lq_destination r; lq_issuer := lq_issuer r; lq_name_id := lq_name_id r;
+     lq_signature_validated := flag |}.
+
+(* the two handlers, named so that theorems can speak about them *)
+Definition decrypt_handler (decrypt : node -> res node) (ctx : nsctx) (path : list nat) (e : node)
+           (st : list nat * list node) : res (list nat * list node) :=
+  match path with
+  | [i] => do det <- other (detach ctx e);
+           do plain <- other (decrypt det);
+           Ok (i :: fst st, snd st ++ [plain])
+  | _ => Err (EOther "found encrypted assertion with unexpected parent element")
+  end.
+
+Definition assertion_handler (dsig : node -> dsig_result) (ctx : nsctx) (path : list nat) (e : node)
+           (acc : list assertion) : res (list assertion) :=
+  match path with
+  | [_] =>
+      do det <- other (detach ctx e);
+      match dsig det with
+      | DOk v => do a <- other (unmarshal_assertion v); Ok (acc ++ [flag_assertion a])
+      | DMissing => Err EMissingSignature
+      | DErr => Err (EOther "signature verification failed")
+      end
+  | _ => Err (EOther "found assertion with unexpected parent element")
+  end.
+
 Section Response.
   Variable dsig : node -> dsig_result.
   Variable decrypt : node -> res node.
@@ -31,14 +76,7 @@ Section Response.
   (* decryptAssertions(el): every EncryptedAssertion (assertion name space) found anywhere below [el] must be a
      direct child of [el]; each is replaced: removed, and its plaintext root appended as last child *)
   Definition decrypt_assertions (el : node) : res node :=
-    do st <- find_iterate c_SAMLAssertionNamespace c_EncryptedAssertionTag
-               (fun ctx path e (st : list nat * list node) =>
-                  match path with
-                  | [i] => do det <- other (detach ctx e);
-                           do plain <- other (decrypt det);
-                           Ok (i :: fst st, snd st ++ [plain])
-                  | _ => Err (EOther "found encrypted assertion with unexpected parent element")
-                  end) el ([], []);
+    do st <- find_iterate c_SAMLAssertionNamespace c_EncryptedAssertionTag (decrypt_handler decrypt) el ([], []);
     match el with
     | Elem sp tg attrs kids => Ok (Elem sp tg attrs (remove_indices_from 0 (fst st) kids ++ snd st))
     | other_node => Ok other_node
@@ -46,29 +84,7 @@ Section Response.
 
   (* the addSignedAssertion closure of the unsigned-Response path *)
   Definition signed_assertions (el : node) : res (list assertion) :=
-    find_iterate c_SAMLAssertionNamespace c_AssertionTag
-      (fun ctx path e (acc : list assertion) =>
-         match path with
-         | [_] =>
-             do det <- other (detach ctx e);
-             match dsig det with
-             | DOk v =>
-                 do a <- other (unmarshal_assertion v);
-                 Ok (acc ++ [{| a_version := a_version a; a_id := a_id a; a_issue_instant := a_issue_instant a;
-                                a_issuer := a_issuer a; a_signature := a_signature a; a_subject := a_subject a;
-                                a_conditions := a_conditions a; a_attribute_statement := a_attribute_statement a;
-                                a_authn_statement := a_authn_statement a; a_signature_validated := true |}])
-             | DMissing => Err EMissingSignature
-             | DErr => Err (EOther "signature verification failed")
-             end
-         | _ => Err (EOther "found assertion with unexpected parent element")
-         end) el [].
-
-  Definition with_flag (r : response) (flag : bool) (assertions : list assertion) (enc : nat) : response :=
-    {| r_id := r_id r; r_in_response_to := r_in_response_to r; r_destination := r_destination r;
-       r_version := r_version r; r_issue_instant := r_issue_instant r; r_status := r_status r;
-       r_issuer := r_issuer r; r_assertions := assertions; r_encrypted_count := enc;
-       r_signature_validated := flag |}.
+    find_iterate c_SAMLAssertionNamespace c_AssertionTag (assertion_handler dsig) el [].
 
   (* ValidateEncodedResponse after base64 + parseResponse produced [root] *)
   Definition validate_response_tree (cfg : config) (now : instant) (root : node) : res response :=
@@ -107,17 +123,13 @@ Section Response.
   Definition validate_logout_response_tree (cfg : config) (root : node) : res logout_response :=
     do ef <- logout_signature_step cfg root;
     do r <- other (unmarshal_logout_response (fst ef));
-    let r := {| lr_id := lr_id r; lr_in_response_to := lr_in_response_to r; lr_destination := lr_destination r;
-                lr_version := lr_version r; lr_issue_instant := lr_issue_instant r; lr_status := lr_status r;
-                lr_issuer := lr_issuer r; lr_signature_validated := snd ef |} in
+    let r := lr_with_flag r (snd ef) in
     check validate_logout_response cfg r; Ok r.
 
   Definition validate_logout_request_tree (cfg : config) (root : node) : res logout_request :=
     do ef <- logout_signature_step cfg root;
     do r <- other (unmarshal_logout_request (fst ef));
-    let r := {| lq_id := lq_id r; lq_version := lq_version r; lq_issue_instant := lq_issue_instant r;
-                lq_destination := lq_destination r; lq_issuer := lq_issuer r; lq_name_id := lq_name_id r;
-                lq_signature_validated := snd ef |} in
+    let r := lq_with_flag r (snd ef) in
     check validate_logout_request cfg r; Ok r.
 End Response.
 
